@@ -6,8 +6,8 @@ mkdir -p build evidence replays coq/Gen
 /venv/bin/python - <<'PY'
 import sys, os, json
 sys.path.insert(0, "tools"); sys.path.insert(0, ".")
-from harness.common import Ctx
-specs = json.load(open("tools/gen_specs.json"))
+from harness.common import Ctx, load_gen_specs
+specs = load_gen_specs()
 c = Ctx("C00")
 c.regen(list(specs))
 for b in c.broken:
